@@ -4,12 +4,12 @@ package main
 // branch, inlined call and potential panic can fork the path.
 
 import (
-	"sort"
 	"fmt"
 	"go/ast"
 	"go/token"
 	"go/types"
 	"os"
+	"sort"
 	"strings"
 )
 
@@ -1045,7 +1045,69 @@ func (ex *Exec) rangeStmt(st *State, s *ast.RangeStmt, label string, k func(*Sta
 }
 
 // loop cuts the loop at its invariant.
+// preBox: struct locals whose address is taken inside the loop (explicitly, or by a call of a
+// pointer-receiver method on the variable) are boxed BEFORE the loop is cut. Boxing used to happen
+// lazily at the first address-of, i.e. inside the body after the loop-head havoc, from a frame
+// variable that the havoc does not touch (the writes go to the box's heap fields): every iteration
+// then started from the variable's value before the loop, and invariants about it were evaluated
+// on that stale value (unsound; found when a seeded change in xrand.rSample was not reported).
+func (ex *Exec) preBox(st *State, lp *loopParts) {
+	fr := st.frame
+	if fr.info == nil {
+		return
+	}
+	var ids []*ast.Ident
+	for _, n := range lp.written {
+		if n == nil {
+			continue
+		}
+		ast.Inspect(n, func(n ast.Node) bool {
+			switch x := n.(type) {
+			case *ast.UnaryExpr:
+				if x.Op == token.AND {
+					if id, ok := ast.Unparen(x.X).(*ast.Ident); ok {
+						ids = append(ids, id)
+					}
+				}
+			case *ast.CallExpr:
+				if sel, ok := ast.Unparen(x.Fun).(*ast.SelectorExpr); ok {
+					if id, ok := ast.Unparen(sel.X).(*ast.Ident); ok {
+						if s := fr.info.Selections[sel]; s != nil && s.Kind() == types.MethodVal {
+							if f, ok := s.Obj().(*types.Func); ok {
+								if sig, ok := f.Type().(*types.Signature); ok && sig.Recv() != nil {
+									if _, isPtr := types.Unalias(sig.Recv().Type()).(*types.Pointer); isPtr {
+										if _, argPtr := types.Unalias(s.Recv()).Underlying().(*types.Pointer); !argPtr {
+											ids = append(ids, id)
+										}
+									}
+								}
+							}
+						}
+					}
+				}
+			}
+			return true
+		})
+	}
+	for _, id := range ids {
+		obj := fr.info.ObjectOf(id)
+		if obj == nil {
+			continue
+		}
+		v, owner, ok := fr.lookupVar(obj)
+		if !ok || owner.boxed[obj] || v.S == nil || v.S.Kind != KStruct {
+			continue
+		}
+		r := ex.newRef(st, "box_"+id.Name)
+		ex.allocSub(st, r, v.Go)
+		ex.storeStruct(st, r, v)
+		owner.vars[obj] = Val{T: r, S: sRef, Go: v.Go}
+		owner.boxed[obj] = true
+	}
+}
+
 func (ex *Exec) loop(st *State, lp *loopParts, k func(*State)) {
+	ex.preBox(st, lp)
 	fr := st.frame
 	ord := ex.loopOrdinal(fr, lp.stmt)
 	var spec *LoopSpec
